@@ -21,6 +21,7 @@ from . import core
 
 RNE = z3.RNE()
 F64 = z3.Float64()
+FLOAT_SQRT = False     # concrete validation mode: sqrt of a concrete value in floating point (as numpy does)
 
 
 def _cur():
@@ -967,6 +968,8 @@ def f_sqrt(a, np_sem=False):
         r = _exact_sqrt(v)
         if r is not None:
             return r
+        if FLOAT_SQRT:
+            return Fraction(math.sqrt(float(v)))
         key = ('sqrtc', Fraction(v))
         y = p.ghost.get(key)
         if y is None:
